@@ -91,4 +91,27 @@ def Sym.pyEval (σ : Name → Option Int) : Sym → Option Int
       | .exp => if b < 0 then none else some (a ^ b.toNat)
     | _, _ => none
 
+/-- one entry of `Shape[...]` -/
+inductive Axis
+  | expr (s : Sym)                    -- an operable axis / computed axis / int
+  | ellipsis                          -- `...` or `AnonymousAxis(...)`
+  | anon (name : Name)                -- `AnonymousAxis("name")`  → `*name`
+  | const (name : Name) (n : Int)     -- `ConstantAxis("name", n)` → `name=n`
+  deriving Repr, Inhabited
+
+def Axis.print : Axis → Except PrintErr (List Char)
+  | .expr s => s.print
+  | .ellipsis => .ok ['.', '.', '.']
+  | .anon n => .ok ('*' :: n)
+  | .const k n => .ok (k ++ ['='] ++ intStr n)
+
+def joinSp : List (List Char) → List Char
+  | [] => []
+  | [x] => x
+  | x :: xs => x ++ [' '] ++ joinSp xs
+
+/-- `str(Shape[...])` : the entries joined by single spaces -/
+def printShape (axes : List Axis) : Except PrintErr (List Char) :=
+  (axes.mapM Axis.print).map joinSp
+
 end Dltype
